@@ -377,7 +377,15 @@ def run_check(pid, tier, replay=None):
 
 def setup():
     rc_all = 0
+    claimed = None
+    try:
+        man = json.load(open(os.path.join(VERIF, "MANIFEST.json")))
+        claimed = {c["property_id"] for c in man.get("checks", [])}
+    except Exception:
+        pass
     for pid in props():
+        if claimed is not None and pid not in claimed:
+            continue
         rc, out, _, secs = build(pid, "/repo")
         print("setup %s build rc=%d %.1fs" % (pid, rc, secs))
         if rc != 0:
